@@ -295,6 +295,9 @@ func (g *gen) roundtrip(p *Plan, conformance bool) {
 	w := WScript{Opts: o, In: 0, Sinks: []SinkPlan{{Yields: g.r.Pick(70, 20, 10)}}}
 	if g.r.Chance(1, 4) {
 		w.Ops = []WOp{{Op: "readfrom", N: n, Frag: ptrFrag(g.fragFor(n))}}
+		if g.r.Chance(1, 4) {
+			w.Ops[0].Bufio = g.r.PickInt(16, 4096, 65536) // a source that is also an io.WriterTo
+		}
 	} else {
 		w.Ops = g.writeOps(n, bs, 4)
 	}
@@ -309,6 +312,7 @@ func (g *gen) roundtrip(p *Plan, conformance bool) {
 	if g.r.Chance(1, 10) {
 		src.Bufio = g.r.PickInt(16, 100, 4096, 65536)
 	}
+	src.Seeker = g.r.Chance(1, 6)
 	r.Srcs = []Source{src}
 	r.Ops = g.readOps(bs, n)
 	r.Ops = append(r.Ops, ROp{Op: "read", N: 16})
@@ -463,6 +467,13 @@ func (g *gen) determinism(p *Plan) {
 		n = g.r.Range(0, 200000)
 	}
 	p.Inputs = []Input{g.input(n), g.input(g.r.Range(0, 3*bs))}
+	if g.r.Chance(1, 90) && o.Level == 0 {
+		// legacy frames with several (nearly) incompressible 8 MiB blocks
+		o.Legacy = true
+		n = g.r.PickInt(16<<20, 17<<20+5)
+		p.Inputs[0] = Input{Class: g.r.PickStr("random", "randtail"), Len: n, Seed: g.r.Uint64()}
+		bs = 8 << 20
+	}
 	ref := WScript{Opts: o, In: 0, Sinks: []SinkPlan{{}}}
 	if n > 0 {
 		ref.Ops = []WOp{{Op: "write", N: n}}
@@ -520,6 +531,11 @@ func (g *gen) determinism(p *Plan) {
 		for i := 0; i < nc; i++ {
 			c := base[g.r.Intn(len(base))]
 			c.Obj = g.r.Pick(50, 25, 25) // package-level, or one of the client's own objects
+			if g.r.Chance(1, 4) {
+				// a destination that is too small: the call fails or reports
+				// "incompressible", and must leave no trace in the compressor
+				c.Dst = g.r.PickInt(1, 10, c.Len/4+1, c.Len/2+1)
+			}
 			if c.HC && g.r.Chance(1, 2) {
 				c.Depth = g.r.PickInt(0, 1, 2, 16, 512, 1<<9, 1<<13, 1<<17)
 			}
